@@ -4,6 +4,7 @@ import (
 	"fmt"
 	"strconv"
 	"strings"
+	"sync"
 	"testing"
 	"testing/synctest"
 	"time"
@@ -290,6 +291,7 @@ func oneSchedule(t *testing.T, h *H, kind string, r *RNG, nCons, nSteps int, scr
 
 func TestQueues(t *testing.T) {
 	component(t, func(h *H) {
+		queueCloseWhileBusy(t, h)
 		// the schedule the property names, first: consumer checks (empty) . producer adds . consumer waits
 		oneSchedule(t, h, "poll", h.R, 1, 0, []string{"s0", "g0", "a", "e0"})
 		oneSchedule(t, h, "poll", h.R, 1, 0, []string{"s0", "g0", "e0", "T", "f0"})
@@ -314,4 +316,74 @@ func TestQueues(t *testing.T) {
 			oneSchedule(t, h, kind, h.R, nc, 4+h.R.Intn(14), nil)
 		}
 	})
+}
+
+// ---- the drain hand-shake of closePacketQueue: a packet added while the sender is busy inside the transport's Send is still
+// sent when the queue is closed afterwards (waitForDrain returns only once the sender has really taken it)
+
+type busySocket struct {
+	mu      sync.Mutex
+	sent    []string
+	hold    chan struct{} // Send of the packet named "hold" blocks until this is closed
+	entered chan struct{}
+}
+
+func (b *busySocket) ID() string                  { return "fake" }
+func (b *busySocket) PingInterval() time.Duration { return time.Second }
+func (b *busySocket) PingTimeout() time.Duration  { return time.Second }
+func (b *busySocket) TransportName() string       { return "fake" }
+func (b *busySocket) Close()                      {}
+func (b *busySocket) Send(ps ...*parser.Packet) {
+	for _, p := range ps {
+		if string(p.Data) == "hold" {
+			select {
+			case b.entered <- struct{}{}:
+			default:
+			}
+			<-b.hold
+		}
+		b.mu.Lock()
+		b.sent = append(b.sent, string(p.Data))
+		b.mu.Unlock()
+	}
+}
+
+func queueCloseWhileBusy(t *testing.T, h *H) {
+	for _, earlier := range []int{0, 1, 3} {
+		var sent []string
+		synctest.Test(t, func(t *testing.T) {
+			q := sio.VerifNewPacketQueue()
+			s := &busySocket{hold: make(chan struct{}), entered: make(chan struct{}, 1)}
+			go q.PollAndSend(s)
+			msg := func(d string) *parser.Packet {
+				return &parser.Packet{Type: parser.PacketTypeMessage, Data: []byte(d)}
+			}
+			for i := 0; i < earlier; i++ { // ordinary traffic before
+				q.Add(msg(fmt.Sprintf("early%d", i)))
+				time.Sleep(10 * time.Millisecond)
+			}
+			q.Add(msg("hold"))
+			<-s.entered // the sender is inside Send
+			q.Add(msg("late"))
+			go func() { // what serverConn.closePacketQueue does
+				q.WaitForDrain(2 * time.Minute)
+				q.Close()
+			}()
+			time.Sleep(time.Second)
+			close(s.hold) // the transport takes packets again
+			time.Sleep(5 * time.Minute)
+			s.mu.Lock()
+			sent = append([]string(nil), s.sent...)
+			s.mu.Unlock()
+			q.Close()
+			time.Sleep(time.Second)
+		})
+		desc := fmt.Sprintf("packet queue: %d earlier packets, then the sender is busy inside Send, a packet is added, the queue is closed (waitForDrain, close), the transport resumes 1 s later", earlier)
+		h.Eval()
+		h.NonTrivial(desc)
+		h.Dist("queue.closeWhileBusy")
+		if len(sent) == 0 || sent[len(sent)-1] != "late" {
+			h.Violation("C19", "a packet queued before the queue was closed is never sent although the transport takes packets", desc, fmt.Sprintf("sent: %v", sent))
+		}
+	}
 }
